@@ -46,7 +46,7 @@ ASSUMPTIONS = [
 ]
 
 
-EXPECTED_PROBES = ['several_heaps_interleaved', 'removed_id_inserted_again', 'heap_emptied_by_pop', 'heap_full', 'heap_refilled_after_emptying', 'internal_arrays_inconsistent_while_behaviour_ok', 'pop_with_tie_at_extremum', 'real_fit_', 'real_trace_precondition_breach', 'real_trace_seam_not_engaged', 'real_update_of_queued', 'update_as_insert', 'update_strictly_improves']
+EXPECTED_PROBES = ['policy_set_through_property', 'policy_switched_on_empty_heap', 'several_heaps_interleaved', 'removed_id_inserted_again', 'heap_emptied_by_pop', 'heap_full', 'heap_refilled_after_emptying', 'internal_arrays_inconsistent_while_behaviour_ok', 'pop_with_tie_at_extremum', 'real_fit_', 'real_trace_precondition_breach', 'real_trace_seam_not_engaged', 'real_update_of_queued', 'update_as_insert', 'update_strictly_improves']
 
 
 def arms(tier):
@@ -136,6 +136,11 @@ def gen_case(rng, arm, tier, k=0):
         choices += [("pop", w_pop if queued else w_fault)]
         if len(queued) == size:
             choices += [("insf", w_fault * 3)]
+        if not queued and ops and rng.random() < 0.08:
+            policy = "max" if policy == "min" else "min"
+            better = (lambda a, b: val(a) <= val(b)) if policy == "min" else (lambda a, b: val(a) >= val(b))
+            ops.append(["setpolicy", policy])
+            continue
         if not fresh and not queued and not (removed and w_reins) and ops and ops[-1] == ["pop"]:
             break  # nothing left but repeating the same fault on an idle heap
         tot = sum(w for _, w in choices)
@@ -187,7 +192,11 @@ def gen_case(rng, arm, tier, k=0):
             ops.append(["pop"])
         else:
             ops.append(["insf", rng.randrange(size)])
-    return {"size": size, "policy": policy, "alpha": alpha, "ops": ops}
+    case = {"size": size, "policy": policy, "alpha": alpha, "ops": ops}
+    if rng.random() < 0.2:
+        # the policy is chosen through the public `policy` property after construction
+        case["ctor_policy"] = rng.choice(("min", "max"))
+    return case
 
 
 # --------------------------------------------------------------------------- oracle
@@ -276,7 +285,12 @@ def _internal_ok(h, model):
 def run_synth(case, out):
     size, policy = case["size"], case["policy"]
     Heap = B.heap_mod.Heap
-    h = lib_call("Heap()", Heap, size, policy)
+    if case.get("ctor_policy"):
+        h = lib_call("Heap()", Heap, size, case["ctor_policy"])
+        h.policy = policy
+        bump(out.probes, "policy_set_through_property")
+    else:
+        h = lib_call("Heap()", Heap, size, policy)
     m = PQModel(size, policy)
     log = EventLog()
     states = set()
@@ -336,6 +350,16 @@ def run_synth(case, out):
             got = m.check_pop(r, ctx)
             norm.append(("pop",))
             log.add("pop", got)
+        elif kind == "setpolicy":
+            # an empty heap is re-used under the other policy
+            if m.queued or op[1] not in ("min", "max") or op[1] == m.policy:
+                continue
+            h.policy = op[1]
+            m.policy = op[1]
+            policy = op[1]
+            bump(out.probes, "policy_switched_on_empty_heap")
+            norm.append(("setpolicy", op[1], 0))
+            log.add("setpolicy", op[1])
         elif kind == "insf":
             if len(m.queued) != size:
                 continue
@@ -381,9 +405,9 @@ def run_synth(case, out):
     if sorted(m.returned) != sorted(m.inserted):
         raise Stop(violation("exactly-once", "insertions %s but removals returned %s" % (sorted(m.inserted), sorted(m.returned)), policy=policy))
     out.digest = log.hexdigest()
-    order = sorted(c for c in {float(o[2]) for o in norm if len(o) > 2})
+    order = sorted(c for c in {float(o[2]) for o in norm if len(o) > 2 and o[0] != "setpolicy"})
     rank = {c: k for k, c in enumerate(order)}
-    out.hist = h64((size, policy, tuple((o[0], o[1] if len(o) > 1 else -1, rank[float(o[2])] if len(o) > 2 else -1) for o in norm)))
+    out.hist = h64((size, case["policy"], case.get("ctor_policy"), tuple((o[0], o[1] if len(o) > 1 else -1, rank[float(o[2])] if len(o) > 2 and o[0] != "setpolicy" else -1) for o in norm)))
     out.nontrivial = m.pops >= 2 and m.upd_queued >= 1
     out.states = states
 
@@ -771,6 +795,12 @@ def shrink(case):
                 yield c
         return
     ops = case["ops"]
+    if any(o[0] == "setpolicy" for o in ops):
+        return
+    if case.get("ctor_policy"):
+        c = dict(case)
+        c.pop("ctor_policy")
+        yield c
     used = sorted({o[1] for o in ops if len(o) > 1})
     # smaller capacity (renumber ids densely)
     if used and (len(used) < case["size"] or used != list(range(len(used)))):
